@@ -35,6 +35,10 @@ CHECKS = {
    text='Same one-step exploration of GlobalStrategy::adapt as C06, asserting the window schedule against a reference written from the property: a switch happens iff the background estimator holds a full window of accepted draws and the next (grown) window still fits before the final step-size window; after a switch the foreground is the old background and the background is empty; window size grows by the factor only on main-phase switches and never shrinks; A::adapt is called on switches and every update_freq draws; the first transformation change re-runs the step-size search, later ones do not; the symmetric acceptance statistic is used exactly when no further window fits and in the final window. The oracle contract of the mass-matrix strategy is checked on the real DiagAdaptStrategy (update_estimators counts a draw iff it is good, switch swaps and empties).',
    note='as C06; the low-rank strategy window (VecDeque) contract is listed as outside until built',
    technique='SMT (z3) over symbolic execution of rustc MIR; one-step induction, differential against a reference schedule'),
+ 'C08': dict(level='model_checking', design='4/C08',
+   text='Bounded symbolic verification of the diagonal mass-matrix estimator from the MIR: (A) the real RunningVariance::add_sample / per-element closure of CpuMath::array_update_variance on n = 3..4 (thorough 6) symbolic draws of a Gaussian coordinate give var_grad s^4 = var_draw and mean_grad s^2 = -(mean_draw - m); (B) from any estimator state with those relations the real DiagAdaptStrategy::adapt / DiagMassMatrix::update_diag_draw_grad / the real per-element closure install std = s, inv_std = 1/s, mean = m, logdet = -ln s exactly (reals with sqrt axioms); (2) the three per-element closures array_update_var_inv_std_{draw,draw_grad,grad} keep every scale finite and > 0 for arbitrary FP64 inputs (NaN, inf, 0, negative) and leave the previous value in place for an invalid estimate; (3) LowRankMassMatrix::update changes nothing when an input is non-finite.',
+   note='gradient-based estimator only; FP64u policy with IEEE lemmas proved bit-precisely in the run; the low-rank estimation pipeline (faer SVD/QR/eigen) is outside and "recovers a full covariance" is not claimed',
+   technique='SMT (z3) over symbolic execution of rustc MIR; polynomial identities over the reals + FP64 guard predicates'),
 }
 NA = {
  'C04': 'statistical closed-loop claim (moments within Monte-Carlo error over >=1000 adapted draws); no bounded symbolic encoding exists for a solver to decide',
